@@ -188,10 +188,13 @@ impl<const BUFFER_CAPACITY: usize> RibbonController<BUFFER_CAPACITY> {
             // if this flag is true right now then they must have just lifted their finger
             if self.finger_is_pressing {
                 self.finger_just_released = true;
-                self.num_samples_received = 0;
-                self.num_samples_written = 0;
                 self.finger_is_pressing = false;
             }
+
+            // start over on every lift, also when the tap was too short to register as a press, so that samples from
+            // separate taps never add up to a press
+            self.num_samples_received = 0;
+            self.num_samples_written = 0;
         }
     }
 
